@@ -48,6 +48,13 @@ func runLBHealth(x *X) {
 	if !passive && !active {
 		passive = true
 	}
+	if !passive && c.Intn(2, "active-only-zero-window") == 0 {
+		// active checks only, and the (passive) unhealthy_timeout left at 0 -- a configuration the
+		// validator accepts: a failed probe then ejects for no time at all, nobody is ever inside a
+		// window, nobody may ever be told "no healthy backend"
+		window = 0
+		x.Probe("zero-unhealthy-window")
+	}
 	W := time.Duration(window) * time.Second
 	I := time.Duration(interval) * time.Second
 	PT := time.Duration(ptimeout) * time.Second
